@@ -547,7 +547,7 @@ def run_equ(run, cases, prop):
             except RefUndefined:
                 continue
             if c["tag"] == "equ-chain" and all(v is not None and 0 <= v <= 65535 for v in vals) and \
-                    all(not (pos == "fcb" and v > 255) for (_, pos, _), v in zip(m["uses"], vals[len(equs):])):
+                    all(not (pos == "fcb" and v > 255) and not (pos == "fdblist" and v + 1 > 65535) for (_, pos, _), v in zip(m["uses"], vals[len(equs):])):
                 run.violate("%s: a program whose EQU expressions all have representable values is rejected" % prop, inp, {"values": vals}, "diag")
             continue
         check_equ_symbols(run, prop, c, im, same)
@@ -570,6 +570,10 @@ def run_equ(run, cases, prop):
         if pos == "fdb":
             got = int(st["bytes"], 16) if st["bytes"] else None
             okay = got == v16 and len(st["bytes"]) == 4
+        elif pos == "fdblist":
+            # FDB 1,<sym>,<sym>+1 : three words
+            got = st["bytes"]
+            okay = -32768 <= v and v + 1 <= 65535 and got == "0001%04x%04x" % (v16, (v + 1) % 65536)
         else:
             okay = bool(d.get("ok")) and d["n"] == len(st["bytes"]) // 2
             got = None
